@@ -42,6 +42,9 @@ CHECKS = {
  "C13": ("Exhaustive enumeration of all simplicial complexes on <= 4 vertices x orientation assignments, plus Hypothesis-generated labelled complexes; algebraic oracle B_k B_{k+1} = 0 and face-incidence of every column",
          "Small-scope exhaustive search plus random exploration: all 126 complexes on at most four vertices (with/without single-node simplices) under the default and sampled (thorough: all) orientation assignments, and generated complexes with negative, float, string and mixed labels and explicit simplex IDs; integer-exact check of the column structure and of the chain-complex identity, Hodge Laplacians symmetric PSD, kernel of L_0 vs components counted by the harness.",
          "Exhaustive only for <= 4 vertices; all orientation assignments only in the thorough tier.", "DESIGN.md#C13"),
+ "C14": ("Differential testing against networkx on expansion graphs built by the harness from members(); Hypothesis-generated hypergraphs x s x weights x subset_types",
+         "Exploration with an independent reference: the node-edge bipartite graph and the clique expansion are built by the harness and handed to networkx; components, connectivity, largest/per-node component, all-pairs and single-source path lengths, clustering, projection graph, s-line graph with weights, bipartite graph (directed too) and the encapsulation DAG are compared with what their definitions prescribe.",
+         "networkx is trusted; 'empirical' DAG judged by a sandwich (order-dependent filter); empty edges excluded where undefined.", "DESIGN.md#C14"),
  "C05": ("Model-based testing: Hypothesis-generated histories applied step by step to xgi and to reference models transcribed from the docstrings (three classes), metamorphic relations for the degree-preserving moves",
          "Exploration by refinement checking against an executable specification: every op of a generated history is applied to the implementation and to the model (parametric in fresh IDs, prefix semantics for bulk calls) and the observable snapshots are compared after every step, including after rejected calls and their exception types.",
          "The models are my transcription of the documentation; inputs the documentation leaves contradictory are excluded by construction and counted (see assumptions in the evidence).", "DESIGN.md#C05"),
